@@ -178,6 +178,75 @@ func churnBody() func(s *vsched.Sched) {
 	}
 }
 
+// refusedBody: one request holds several sequence puts of a prefix and a later one is refused with a
+// per-operation status (an expected version that does not match; an unknown session): the subscriber
+// must end on the highest key that was actually created.
+func refusedBody(viaSession bool) func(s *vsched.Sched) {
+	return func(s *vsched.Sched) {
+		s.Explore(false)
+		env := oxc.NewEnv(s)
+		kvf := oxc.NewObsFactory(env.Dir)
+		lc, err := server.NewLeaderController(server.Config{NotificationsRetentionTime: time.Hour}, "ns", 1, oxc.NewNet(), env.WalFactory("n1", 64*1024, true), kvf)
+		if err == nil {
+			_, err = lc.NewTerm(&proto.NewTermRequest{Namespace: "ns", Shard: 1, Term: 1, Options: &proto.NewTermOptions{EnableNotifications: true}})
+		}
+		if err == nil {
+			_, err = lc.BecomeLeader(context.Background(), &proto.BecomeLeaderRequest{Namespace: "ns", Shard: 1, Term: 1, ReplicationFactor: 1, FollowerMaps: map[string]*proto.EntryId{}})
+		}
+		if err != nil {
+			s.Fail("harness-setup", err.Error())
+			return
+		}
+		if _, err := lc.WriteBlock(context.Background(), seqPut()); err != nil {
+			s.Fail("harness-setup", err.Error())
+			return
+		}
+		last := ""
+		ctx, cancel := context.WithCancel(context.Background())
+		vsched.Go(func() {
+			sw, err := lc.GetSequenceUpdates(ctx, &proto.GetSequenceUpdatesRequest{Shard: 1, Key: "p"})
+			if err != nil {
+				return
+			}
+			defer func() { _ = sw.Close() }()
+			for {
+				k, err := sw.Receive(ctx)
+				if err != nil || k == "" {
+					return
+				}
+				last = k
+			}
+		})
+		s.Settle()
+		s.Explore(true)
+		ok := seqPut().Puts[0]
+		bad := seqPut().Puts[0]
+		if viaSession {
+			bad.SessionId = oxh.I64(999)
+		} else {
+			bad.ExpectedVersionId = oxh.I64(12345)
+		}
+		highest := ""
+		vsched.Go(func() {
+			r, err := lc.WriteBlock(context.Background(), &proto.WriteRequest{Shard: oxh.I64(1), Puts: []*proto.PutRequest{ok, bad}})
+			if err == nil && len(r.Puts) == 2 && r.Puts[0].Status == proto.Status_OK {
+				highest = r.Puts[0].GetKey()
+				if r.Puts[1].Status == proto.Status_OK {
+					highest = r.Puts[1].GetKey()
+				}
+			}
+		})
+		s.Settle()
+		s.Explore(false)
+		if highest != "" && last != highest {
+			s.Fail("subscriber-missed-latest-key", fmt.Sprintf("request [seqput ok, seqput refused with a status]: the highest created key is %q, the subscriber holds %q at quiescence", highest, last))
+		}
+		s.Data = fmt.Sprintf("last=%s highest=%s", last, highest)
+		cancel()
+		_ = lc.Close()
+	}
+}
+
 func scenarios(tier string) []sched.Scenario {
 	cfg := vsched.Config{MaxSteps: 50000}
 	out := []sched.Scenario{
@@ -185,6 +254,8 @@ func scenarios(tier string) []sched.Scenario {
 		{Name: "1writer-preloaded", Cfg: cfg, MaxDev: 2, Body: body(1, 1)},
 		{Name: "2writers-preloaded", Cfg: cfg, MaxDev: 2, Body: body(2, 1)},
 		{Name: "subscriber-churn", Cfg: cfg, MaxDev: 2, Body: churnBody()},
+		{Name: "batch-last-seqput-refused-version", Cfg: cfg, MaxDev: 2, Body: refusedBody(false)},
+		{Name: "batch-last-seqput-refused-session", Cfg: cfg, MaxDev: 2, Body: refusedBody(true)},
 	}
 	if tier == "thorough" {
 		out[0].MaxDev = 3
